@@ -167,6 +167,7 @@ fn variation_cases(tier: Tier) -> Vec<(String, Vec<(String, Vec<u8>)>, ArcLayout
     }
     let mut pairs: Vec<(String, String)> = vcore::collide::pairs().iter().map(|(_, a, b)| (a.clone(), b.clone())).collect();
     pairs.extend(vcore::sjis::suffix_pairs());
+    pairs.extend(vcore::sjis::case_pairs());
     for (i, (a, b)) in pairs.iter().enumerate() {
         if a.is_empty() || b.is_empty() {
             continue;
@@ -203,6 +204,15 @@ fn variation_cases(tier: Tier) -> Vec<(String, Vec<(String, Vec<u8>)>, ArcLayout
             }
         }
     }
+    // the index column is not constrained by the layout: sparse, descending from 0xFFFFFFFF, constant
+    for style in 1..=3u8 {
+        for n in 1..=4usize {
+            for padded in [true, false] {
+                let files: Vec<(String, Vec<u8>)> = (0..n).map(|i| (format!("f{}.bin", i), body(i, 3 + i))).collect();
+                v.push((format!("index column style {} with {} files", style, n), files, lay(n, padded, n % 2 == 0), ArcTweak { index_style: style, ..Default::default() }));
+            }
+        }
+    }
     // shared bodies: 2..=4 names for one body of 0..=400 bytes (every length at the thorough tier)
     let lens: Vec<usize> = tier.pick(vec![0, 1, 4, 26, 27, 36, 37, 74, 75, 100, 132, 133, 200, 300, 400, 4096, 70_000], (0..=400).chain([4096, 70_000]).collect());
     for k in 2..=4usize {
@@ -215,7 +225,7 @@ fn variation_cases(tier: Tier) -> Vec<(String, Vec<(String, Vec<u8>)>, ArcLayout
             }
         }
     }
-    let (counts, blen, nlen) = tier.pick((300usize, 200usize, 300usize), (1200, 700, 1200));
+    let (counts, blen, nlen) = tier.pick((300usize, 200usize, 1700usize), (1200, 700, 4400));
     for n in 0..=counts {
         v.push((format!("{} files", n), (0..n).map(|i| (format!("f{}", i), body(i % 5, (i * 7) % 6))).collect(), lay(n, n % 2 == 0, n % 3 == 0), ArcTweak { label_records: (n % 3) as u8, data_label: n % 2 == 1, ..Default::default() }));
     }
